@@ -249,9 +249,18 @@ def diagram_rename_stream(ctx: Ctx, n: int):
                 p.write_text("@startuml\n" + "\n".join(lines) + "\n@enduml\n", encoding="utf-8")
                 arch = rules.make_arch_direct(nodes, edges)
                 outs = []
-                for only in (True, False):
+                enc = rules.Enc()
+                gsx = enc.graph_built(nodes, edges)
+                comps_sx = [enc.name(render(c, names)) for c in comps]
+                rel_sx = [[enc.name(render(a, names)), enc.name(render(b, names))] for a, b in sorted(rel)]
+                mres = common.model_run([[22, [gsx, True, [], comps_sx, rel_sx]], [22, [gsx, False, [], comps_sx, rel_sx]]])
+                for only, m in zip((True, False), mres):
                     io = rules.run_rule(DiagramRule(should_only_rule=only).from_file(p).base_module_included_in_module_names(), arch)
                     ctx.evaluations += 1
+                    mo = enc.dec_outcome(m)
+                    if not rules.same_verdict(io, mo) or not rules.same_lines(io, mo):
+                        ctx.disagreement(dict(diagram=p.read_text(encoding="utf-8"), nodes=nodes, edges=edges, should_only_rule=only, impl=[io[0], io[1][:200]], model=mo[0]),
+                                         "model and implementation differ on a diagram rule")
                     outs.append((io[0], unrender_lines(rules.parse_message(io[1]) or (), back) if io[0] == "FAIL" else frozenset()))
                 per.append((names, nodes, edges, outs, p.read_text(encoding="utf-8")))
             for other in per[1:]:
